@@ -114,10 +114,14 @@ where
                 .or_else(|| parse_filesize(&s).map(|size| size as f64))
                 .unwrap_or(0.0)
         };
-        let a = number(self.values[i].to_string());
-        let b = number(other.values[i].to_string());
+        let (a, b) = (self.values[i].to_string(), other.values[i].to_string());
 
-        a.partial_cmp(&b).unwrap_or(Ordering::Equal)
+        // whole numbers are compared exactly: beyond 2^53 neighbouring sizes are the same f64
+        if let (Ok(a), Ok(b)) = (a.parse::<i128>(), b.parse::<i128>()) {
+            return a.cmp(&b);
+        }
+
+        number(a).partial_cmp(&number(b)).unwrap_or(Ordering::Equal)
     }
 
     #[inline]
